@@ -15,8 +15,21 @@ import zipfile
 from pathlib import Path
 
 import core
+import heapwalk
 import pkg
 import tables as T
+
+HP: list = []          # finished heap traces (requests for the `hp` model), run at the end
+
+
+def hp_done(chk, tr) -> None:
+    tr.finish()
+    HP.append(tr)
+    chk.count("heap trace", f"cells allocated: {min(tr.n_alloc // 10 * 10, 200)}+")
+    chk.count("heap trace writes", str(min(tr.n_write, 30)))
+    for k, owner, first_owner, path, first_path, tname in tr.shared[:3]:
+        chk.disagree({**tr.case, "shared_object": tname, "reached_from_twin": owner, "as": path, "owned_by_twin": first_owner, "there": first_path},
+                     f"a mutable {tname} is reachable from two twins ({first_path} and {path}): not a heap of the model (OdfModel/Heap: every object has one owner)")
 
 
 # ---- tables, rows, cells, elements ---------------------------------------------------------------------
@@ -63,7 +76,11 @@ def table_part(chk, rng):
         try:
             if kind in ("table", "table+table"):
                 before = table_fingerprint(t)
+                tr = heapwalk.HeapTrace({**case, "model": "heap"})
+                tr.scan(0, t, 0, "history before the clone")
                 c = t.clone
+                tr.step({0: t}, 0, "clone")
+                tr.scan(1, c, 1, "birth")
                 if table_fingerprint(t) != before:
                     chk.fail({**case, "clause": "clone-modifies-original"}, "cloning a table modified the original")
                     continue
@@ -79,13 +96,22 @@ def table_part(chk, rng):
                         chk.fail({**case, "clause": "isolation"}, "clone of a table: " + p)
                         break
                 else:
-                    interleave_tables(chk, rng, t, c, g, case)
+                    tr.step({0: t}, 0, "reads of the original")
+                    tr.step({1: c}, 1, "reads of the clone")
+                    interleave_tables(chk, rng, t, c, g, case, tr)
+                hp_done(chk, tr)
             elif kind == "row":
                 if not g.rows:
                     continue
                 y = rng.randrange(len(g.rows))
+                tr = heapwalk.HeapTrace({**case, "model": "heap", "row": y})
+                tr.scan(0, t, 0, "history before the copy")
                 r = t.get_row(y)
+                tr.step({0: t}, 0, "get_row")
+                tr.scan(1, r, 1, "birth of the copy")
                 r2 = r.clone
+                tr.step({0: t, 1: r}, 1, "clone of the copy")
+                tr.scan(2, r2, 2, "birth of the clone")
                 for cp in (r, r2):
                     p = isolation_problem(cp)
                     if p:
@@ -96,14 +122,20 @@ def table_part(chk, rng):
                         chk.fail({**case, "clause": "equal-at-birth", "row": y}, "the clone of a row differs from the row")
                         continue
                     snap = (r.serialize(), r.get_values(), t.serialize())
+                    trio = {0: t, 1: r, 2: r2}
+                    tr.step({0: t}, 0, "reads"); tr.step({1: r}, 1, "reads"); tr.step({2: r2}, 2, "reads")
                     r2.set_value(0, "ZZ")
                     r2.append_cell(T.mk_cell(("a", None)))
+                    tr.step(trio, 2, "set_value + append_cell on the clone of the row")
                     if (r.serialize(), r.get_values(), t.serialize()) != snap:
                         chk.fail({**case, "clause": "independence", "row": y}, "editing the clone of a row changed the row or its table")
                         continue
                     snap2 = (r2.serialize(), r2.get_values())
+                    tr.step({0: t}, 0, "reads"); tr.step({1: r}, 1, "reads"); tr.step({2: r2}, 2, "reads")
                     r.set_value(0, "YY")
                     r.insert_cell(0, T.mk_cell(("b", None)))
+                    tr.step(trio, 1, "set_value + insert_cell on the row copy")
+                    hp_done(chk, tr)
                     if (r2.serialize(), r2.get_values()) != snap2:
                         chk.fail({**case, "clause": "independence", "row": y}, "editing a row changed its clone")
                         continue
@@ -115,9 +147,14 @@ def table_part(chk, rng):
                     other = Table("Other")
                     other.append_row(r3, clone=False)
                     snap3 = table_fingerprint(t)
+                    tr = heapwalk.HeapTrace({**case, "model": "heap", "row": y, "scenario": "clone moved into another table, then repeated"})
+                    tr.scan(0, t, 0, "first table")
+                    tr.scan(1, [other, r3], 1, "the other table with the row clone in it")
                     r3.repeated = rng.choice([2, 3, 5])
                     other.append_row(T.mk_row([("c", None)]))
                     r3.set_value(0, "WW")
+                    tr.step({0: t, 1: [other, r3]}, 1, "repeated, append_row, set_value in the other table")
+                    hp_done(chk, tr)
                     if table_fingerprint(t) != snap3:
                         chk.fail({**case, "clause": "independence", "row": y, "scenario": "clone moved into another table, then repeated"},
                                  "operations on a row clone living in another table are observable on the table it was cloned from")
@@ -135,20 +172,29 @@ def table_part(chk, rng):
                 if not g.rows or not g.ncols:
                     continue
                 y = rng.randrange(len(g.rows)); x = rng.randrange(g.ncols)
+                tr = heapwalk.HeapTrace({**case, "model": "heap", "cell": (x, y)})
+                tr.scan(0, t, 0, "history before the copy")
                 cell = t.get_cell((x, y))
+                tr.step({0: t}, 0, "get_cell")
+                tr.scan(1, cell, 1, "birth of the copy")
                 c2 = cell.clone
+                tr.step({0: t, 1: cell}, 1, "clone of the copy")
+                tr.scan(2, c2, 2, "birth of the clone")
                 if c2.serialize() != cell.serialize() or (c2.x, c2.y) != (cell.x, cell.y):
                     chk.fail({**case, "clause": "equal-at-birth", "cell": (x, y)}, "the clone of a cell differs from the cell (content or coordinates)")
                     continue
                 snap = (cell.serialize(), t.serialize())
+                tr.step({0: t}, 0, "reads"); tr.step({1: cell}, 1, "reads")
                 c2.set_value("ZZ")
+                tr.step({0: t, 1: cell, 2: c2}, 2, "set_value on the clone of the cell")
+                hp_done(chk, tr)
                 if (cell.serialize(), t.serialize()) != snap:
                     chk.fail({**case, "clause": "independence", "cell": (x, y)}, "editing the clone of a cell changed the cell or its table")
         except Exception as e:  # noqa: BLE001
             chk.fail({**case, "exception": repr(e), "clause": "clone-raises"}, f"cloning / using the clone raised {type(e).__name__}")
 
 
-def interleave_tables(chk, rng, a, b, g, case):
+def interleave_tables(chk, rng, a, b, g, case, tr=None):
     """two operation sequences, interleaved on the table and on its clone; after each one the other twin must not move"""
     ga, gb = g.clone(), g.clone()
     steps = []
@@ -158,13 +204,21 @@ def interleave_tables(chk, rng, a, b, g, case):
         op = T.gen_op(rng, grid)
         steps.append((side, op))
         snap = table_fingerprint(other)
+        twins, me = {0: a, 1: b}, 0 if side == "a" else 1
+        if tr:
+            tr.step(twins, 1 - me, "reads of the other twin")
         try:
             T.impl_apply(twin, op)
             T.ref_apply(grid, op)
         except Exception as e:  # noqa: BLE001
             chk.fail({**case, "after_clone": steps, "exception": repr(e), "clause": "twin-op-raises"}, f"an operation on {'the original' if side == 'a' else 'the clone'} raised {type(e).__name__}")
             return
-        if table_fingerprint(other) != snap:
+        if tr:
+            tr.step(twins, me, f"{op['op']} (operation {len(steps)} after the clone)")
+        now = table_fingerprint(other)
+        if tr:
+            tr.step(twins, 1 - me, "reads of the other twin")
+        if now != snap:
             chk.fail({**case, "after_clone": [(s, o) for s, o in steps], "clause": "independence"},
                      f"an operation on {'the original' if side == 'a' else 'the clone'} is observable on the other one")
             return
@@ -243,9 +297,17 @@ def document_part(chk, rng, tmp: Path, mirror):
         chk.count("clone of", f"document ({s.origin})")
         try:
             v0 = semantic_view(s.doc, src_files)
+            tr = heapwalk.HeapTrace({**case, "model": "heap"}) if h < chk.n(60, 400) else None
+            if tr:
+                tr.scan(0, s.doc, 0, "history before the clone")
             clone = s.doc.clone
+            if tr:
+                tr.step({0: s.doc}, 0, "clone")
+                tr.scan(1, clone, 1, "birth")
             v1 = semantic_view(s.doc, src_files)
             vc = semantic_view(clone, {})
+            if tr:
+                tr.step({0: s.doc}, 0, "view"); tr.step({1: clone}, 1, "view")
         except Exception as e:  # noqa: BLE001
             chk.fail({**case, "exception": repr(e), "clause": "clone-raises"}, f"Document.clone raised {type(e).__name__}")
             continue
@@ -274,11 +336,18 @@ def document_part(chk, rng, tmp: Path, mirror):
             part = s.doc.get_part("content")
             mirror.sync_xml(s)
             pc = part.clone
+            if tr:
+                tr.step({0: s.doc}, 0, "get_part + clone of the part")
+                tr.scan(2, pc, 2, "birth of the part clone")
             if pkg.canon("content.xml", pc.serialize()) != pkg.canon("content.xml", part.serialize()):
                 chk.fail({**case, "clause": "equal-at-birth", "object": "XmlPart"}, "the clone of an XML part serialises differently")
                 continue
             snap = part.serialize()
+            if tr:
+                tr.step({0: s.doc}, 0, "serialize"); tr.step({2: pc}, 2, "serialize")
             pc.root._Element__element.set("{urn:verif}m", "1")
+            if tr:
+                tr.step({0: s.doc, 1: clone, 2: pc}, 2, "edit of the part clone")
             if part.serialize() != snap:
                 chk.fail({**case, "clause": "independence", "object": "XmlPart"}, "editing the clone of an XML part changed the part")
                 continue
@@ -294,6 +363,8 @@ def document_part(chk, rng, tmp: Path, mirror):
             op = pkg.gen_op(rng, side)
             steps.append(("original" if side is orig else "clone", list(op)))
             snap = semantic_view(other.doc, srcs[id(other)])
+            if tr:          # (the view serialises the parsed parts of the other twin: the harness's own read of it)
+                tr.step({(1 if side is orig else 0): other.doc}, 1 if side is orig else 0, "view of the other twin")
             try:
                 res = pkg.apply_op(side, op, tmp)
             except ValueError as e:
@@ -313,7 +384,11 @@ def document_part(chk, rng, tmp: Path, mirror):
                 failed = True
                 break
             mirror.after_op(side, op)
+            if tr:
+                tr.step({0: orig.doc, 1: twin.doc}, 0 if side is orig else 1, f"{op[0]} (operation {len(steps)} after the clone)")
             now = semantic_view(other.doc, srcs[id(other)])
+            if tr:
+                tr.step({(1 if side is orig else 0): other.doc}, 1 if side is orig else 0, "view of the other twin")
             if now != snap:
                 bad = sorted(n for n in set(snap) | set(now) if snap.get(n) != now.get(n))
                 chk.fail({**case, "after_clone": steps, "clause": "independence", "parts": bad[:4]},
@@ -323,6 +398,8 @@ def document_part(chk, rng, tmp: Path, mirror):
             chk.count("document op after clone", op[0])
         if failed:
             continue
+        if tr:
+            hp_done(chk, tr)
         # ---- each twin saves what its own history says ----------------------------------------------------
         import c03
 
@@ -357,6 +434,13 @@ def run(chk: core.Check) -> None:
         table_part(chk, rng)
         document_part(chk, rng, tmp, mirror)
         mirror.run(chk)
+        reqs = [r for tr in HP for r in tr.reqs]
+        answers = core.run_driver([q for q, _, _ in reqs])
+        for (q, exp, case), ans in zip(reqs, answers):
+            if exp != ans:
+                what = ("an operation on one twin changed or created a mutable object of another twin" if ans == "foreign"
+                        else f"heap trace: impl {exp!r} != model {ans!r}")
+                chk.disagree({**case, "line": q[:120]}, what)
     finally:
         shutil.rmtree(tmp, ignore_errors=True)
 
